@@ -121,6 +121,17 @@ func (w *World) PropertyFunctions(prop string) (tagged []string, all []string) {
 		if c != nil && c.Kind == "closure" {
 			fi = w.closureInfo(k)
 		}
+		if i := strings.Index(k, "["); i >= 0 && fi == nil {
+			fi = w.Funcs[k[:i]]
+		}
+		if c == nil && fi != nil {
+			// a generic function: its instances carry the contracts
+			for _, ic := range w.CS.Order {
+				if strings.HasPrefix(ic.Key, k+"[") {
+					visit(ic.Key)
+				}
+			}
+		}
 		if c == nil || fi == nil || fi.Decl == nil {
 			return
 		}
@@ -263,6 +274,9 @@ func RunCheck(cfg CheckConfig) int {
 		}
 		lw.BG.Discharge(lobls, sc)
 		obls = append(obls, lobls...)
+		if ld.prefix == "" {
+			obls = append(obls, lw.TagObligations(cfg.Property)...)
+		}
 		for _, k := range ltagged {
 			tagged = append(tagged, ld.prefix+k)
 		}
@@ -426,6 +440,9 @@ func RunCheck(cfg CheckConfig) int {
 		}
 	}
 	level := "proof"
+	if cfg.Property == "C16" {
+		level = "other" // only part of the statement is decided by contracts (see MANIFEST level_note)
+	}
 	ev := map[string]any{
 		"property_id": cfg.Property,
 		"tier":        cfg.Tier,
